@@ -546,9 +546,10 @@ def exchange_store_order(ctx: Ctx, rs: RustProgram, rows: dict, ok_base: list) -
             for p_, s_ in zip(pats, srcs):
                 if p_:
                     binds[p_] = s_
-    mem_stores = [binds.get(a.split(".")[0]) for a in rs_order if binds.get(a.split(".")[0]) in ("decoded.mem", "decoded.mem2")]
+    # the decoded-operand record is identified by its fields (.mem = first memory operand, .mem2 = second), not by the local's name
+    mem_stores = [binds.get(a.split(".")[0]).split(".")[-1] for a in rs_order if (binds.get(a.split(".")[0]) or "").split(".")[-1] in ("mem", "mem2")]
     ctx.need(len(mem_stores) >= 2, f"Rust exchange arm: the two memory stores were not recovered ({rs_order[:4]}, {binds})")
-    rs_first = "op1" if mem_stores[0] == "decoded.mem" else "op2"
+    rs_first = "op1" if mem_stores[0] == "mem" else "op2"
     if py_first != {rs_first}:
         ctx.violation("C06.13/exchange-store-order", key_of(isa.INSTR_PY, "ExchangeInstruction", "memory operands stored in another order than the Rust core"),
                       f"the Python IL of the memory-memory exchanges stores first to {sorted(py_first)}, the Rust arm first to {rs_first}: when the two operands overlap (EXW (10),(11)) the operand stored last wins the shared "
